@@ -203,14 +203,14 @@ def queries(tier):
     nondef = '(ds == 0) + (es == 0) + (tg == 0) + (ex == 0) + (tt == 0) + (mi == 0)'
     if tier == 'quick':
         n = 2
-        ps = [I('fmt', 0, 2), B('same'), B('pr')] + picks + [I('ida', 0, 2), B('v0'), B('c0'), B('ra0'), B('ra1')]
+        ps = [I('fmt', 0, 2), B('same'), B('pr')] + picks + [I('ida', 0, 2), B('v0'), B('c0'), B('ra0'), B('ra1'), B('ep')]
         pre = [nondef + ' >= 5']
         cube = {'n': n, 'edges': ['e01', 'e11']}
         timeout = 400
         cap = 1
     else:
         n = 3
-        ps = [I('fmt', 0, 2), B('same'), B('pr')] + picks + [I('ida', 0, 2), B('v0'), B('c0'), B('ra0'), B('ra1'), B('e01')]
+        ps = [I('fmt', 0, 2), B('same'), B('pr')] + picks + [I('ida', 0, 2), B('v0'), B('c0'), B('ra0'), B('ra1'), B('e01'), B('ep')]
         pre = [nondef + ' >= 4']
         cube = {'n': n, 'edges': ['e20', 'e11', 'e12']}
         timeout = 1700
@@ -221,7 +221,7 @@ def queries(tier):
                 timeout=timeout, witnesses=[(cube, w)],
                 bound='%d hand-built nodes: node 0 with attribute picks (defense %s, existence %s, tags %s, extras, ttc, mitre; at most %d non-default '
                       'families at once), symbolic viability/necessity flags, edges %s plus symbolic ones, two attackers (same/different name, ids '
-                      '{None,0,5} and 3), reached sets, entry points, optional pruning, formats %s' % (n, DSTAT, ESTAT, TAGS, cap, cube['edges'], FMT))]
+                      '{None,0,5} and 3), reached sets, entry points equal to the reached set or empty, optional pruning, formats %s' % (n, DSTAT, ESTAT, TAGS, cap, cube['edges'], FMT))]
     ps = [I('fmt', 0, 2), B('l'), I('d', 0, 3), B('at'), B('an'), B('pr'), B('wm'), B('goal')]
     qs.append(Query(name='model', body=body_model, params=ps, split=['fmt'], timeout=500,
                     witnesses=[({}, {'fmt': 0, 'l': True, 'd': 2, 'at': True, 'an': True, 'pr': True, 'wm': True, 'goal': True}),
